@@ -45,7 +45,8 @@ EXPECT = {
     'X1': [('FixtureShared::ThrowsOther', 'throw@'), ('FixtureShared::Swallow', 'catch@')],
     'X2b': [('FixtureShared::Lookup', 'strchr')],
     'X3': [('FixtureShared::WriteThenThrow', 'out')],
-    'X4': [('FixtureShared::NanThrows', 'lat@')],
+    'X4': [('FixtureShared::NanThrows', 'lat@'), ('FixtureShared::NanThrowsViaHelper', 'lon@')],
+    'W1': [('FixtureShared::HalfWritten', 'northp')],
     'X6': [('FixtureShared::Spin', 'loop@')],
     'X7': [('FixtureShared::Pick', 'alphabet')],
 }
@@ -80,6 +81,9 @@ def run_controls(rules):
             res = exc.rule_X4(fx, None)[0]
         elif r == 'X6':
             res = exc.rule_X6(fx, None)[0]
+        elif r == 'W1':
+            from .rules import total
+            res = total.rule_W1(fx, None)[0]
         elif r == 'X7':
             from .rules import bounds
             res = bounds.rule_X7(fx, files=('controls.cpp',))[0]
